@@ -128,6 +128,13 @@ def run(ctx):
                         continue
                     cases.append({"origin": "wide", "ops": ["pmk " + " ".join(r.field() for r in recs)],
                                   "desc": " ".join(r.field() for r in recs)})
+            # MANY entries in ONE bracket (64, 65, 100, 1100 one-host ranges of one prefix): the compressed text is a single
+            # long bracket list, read back by hostlist_create (pback) - the parser's per-bracket bookkeeping at and past
+            # every power of two
+            for k in (64, 65, 100, 1100):
+                recs = [Rec(b"b", 2 * i + 1, 2 * i + 1, 1, False) for i in range(k)]
+                cases.append({"origin": "long-bracket", "ops": ["pmk " + " ".join(r.field() for r in recs)],
+                              "desc": "b[1,3,5,..] with %d entries" % k})
             cases.extend(small_scope(2 if ctx.quick() else 3))
             if not ctx.quick():
                 from vlib.printcheck import SHAPES
